@@ -61,6 +61,7 @@ CollapseFl(s) ==
   [facts |-> s.facts,
    fl |-> [g \in {<<k[1], DedupArgs(k[2])>> : k \in DOMAIN s.fl} |->
              s.fl[CHOOSE k \in DOMAIN s.fl : <<k[1], DedupArgs(k[2])>> = g]]]
+HasRepeat(s) == \E g \in DOMAIN s.fl : DedupArgs(g[2]) # g[2]
 StEqD(a, b, dv) == IF "RepeatedFluentArg" \in dv THEN StEq(a, CollapseFl(b)) ELSE StEq(a, b)
 
 ObsOf(e) == IF Has(e.out, "exc") THEN [exc |-> TRUE] ELSE [exc |-> FALSE]
@@ -234,7 +235,9 @@ JParseTrajectory(e, st) ==
               /\ StJsonClean(e.out.comps[i].pre) /\ StJsonClean(e.out.comps[i].post)
               /\ comps[i].op = run[i].op
               /\ StEqD(comps[i].pre, run[i].pre, dv) /\ StEqD(comps[i].post, run[i].post, dv)
-              /\ ("RepeatedFluentArg" \notin dv => ExactEq(comps[i].pre, run[i].pre) /\ ExactEq(comps[i].post, run[i].post))
+              \* the deviation only excuses states that really hold a fluent with a repeated argument
+              /\ (~("RepeatedFluentArg" \in dv /\ (HasRepeat(run[i].pre) \/ HasRepeat(run[i].post)))
+                    => ExactEq(comps[i].pre, run[i].pre) /\ ExactEq(comps[i].post, run[i].post))
         /\ \A i \in 1..(Len(comps) - 1) : ExactEq(comps[i + 1].pre, comps[i].post)
   IN  WithDevs(adm, "ParseTrajectory", st)
 
